@@ -85,4 +85,57 @@ def c19():
                 legs={"quick": [leg], "thorough": [leg]}, mine=lambda c: True, structural=False)
 
 
-EXTRA = {"C19": c19}
+
+# the two instructions node16_arm64.s writes as raw WORDs, as Model/Arm64.lean reads them
+ARM64_WORDS = {"6e213400": "VCMHI V1.B16, V0.B16, V0.B16", "0f0c8400": "VSHRN $4, V0.H8, V0.B8"}
+
+
+def c10_arm64_decode_leg(pid, tier, seed, i, leg):
+    """node16_arm64.s cannot be run here, but it can be assembled (cross-assembler) and disassembled by the Go
+    toolchain: the raw WORDs must decode to the instructions Model/Arm64.lean takes them for, and every mnemonic of the
+    disassembly must be one the model gives a meaning to.  This validates the decoding only, not the semantics."""
+    diffs, lines = [], []
+    transcript = os.path.join(WORK, f"{pid}-{tier}-{i}.txt")
+    scratch = tempfile.mkdtemp(prefix="verif-c10-arm64-")
+    try:
+        rc, goroot = sh(["go", "env", "GOROOT"], cwd=REPO)
+        goroot = goroot.strip().splitlines()[-1] if rc == 0 and goroot.strip() else ""
+        obj = os.path.join(scratch, "n16.o")
+        env = dict(ENV, GOARCH="arm64", GOOS="linux")
+        rc, out = sh(["go", "tool", "asm", "-I", os.path.join(goroot, "pkg", "include"), "-p", "art", "-o", obj, "node16_arm64.s"], cwd=REPO, env=env)
+        if rc != 0:
+            diffs.append(dict(line=0, cls="MODEL", text="node16_arm64.s does not assemble: " + out[-400:]))
+        else:
+            rc, dis = sh(["go", "tool", "objdump", obj], cwd=REPO, env=env)
+            known = {"MOVD", "MOVB", "MOVBU", "VLD1", "VDUP", "VCMEQ", "VCMHI", "VSHRN", "FMOVD", "CBNZ", "CBZ", "AND", "RBIT", "CLZ", "ASR", "LSR", "RET", "?"}
+            for l in dis.splitlines():
+                w = l.split()
+                if len(w) < 4 or not re.fullmatch(r"[0-9a-f]{8}", w[2]):
+                    continue
+                enc, mn, ops = w[2], w[3], " ".join(w[4:])
+                if enc in ARM64_WORDS:
+                    ok = f"{mn} {ops}".strip() == ARM64_WORDS[enc]
+                    lines.append(f"assert 0 arm64-word-{enc}-decodes-to-{ARM64_WORDS[enc].split()[0]} => {'ok' if ok else mn + ' ' + ops}")
+                    if not ok:
+                        diffs.append(dict(line=len(lines), cls="MODEL", text=f"WORD {enc} disassembles to `{mn} {ops}`, Model/Arm64.lean reads it as `{ARM64_WORDS[enc]}`"))
+                elif mn not in known:
+                    lines.append(f"assert 0 arm64-mnemonic-{mn}-has-a-meaning-in-the-model => no")
+                    diffs.append(dict(line=len(lines), cls="MODEL", text=f"node16_arm64.s uses {mn}, which Model/Arm64.lean gives no meaning"))
+            if not lines:
+                diffs.append(dict(line=0, cls="MODEL", text="no raw WORD found in the disassembly of node16_arm64.s: " + dis[-300:]))
+    finally:
+        shutil.rmtree(scratch, ignore_errors=True)
+    with open(transcript, "w") as f:
+        f.write("\n".join(lines) + "\n")
+    return dict(leg=leg, transcript=transcript, diffs=diffs, summary={"ops": len(lines)}, stats={"arm64-words-decoded": len(lines)},
+                cmd="GOARCH=arm64 go tool asm node16_arm64.s && go tool objdump (decoding of the raw WORDs only)", evaluations=0)
+
+
+def c10():
+    p = dict(PROPS["C10"])
+    leg = dict(kind="arm64-decode", custom=c10_arm64_decode_leg)
+    p["legs"] = {t: ls + [leg] for t, ls in PROPS["C10"]["legs"].items()}
+    return p
+
+
+EXTRA = {"C19": c19, "C10": c10}
